@@ -192,6 +192,10 @@ var c10Mut = []func(r *Rng, h int) Sx{
 	func(r *Rng, h int) Sx { return L(A("abort")) },
 	func(r *Rng, h int) Sx { return L(A("abs"), I(403)) },
 	func(r *Rng, h int) Sx { return L(A("w"), L(A("fl"))) },
+	func(r *Rng, h int) Sx {
+		return L(A("w"), L(A("he"), SB([]byte("failed")), I([]int{500, 404, 418}[r.Intn(3)])))
+	},
+	func(r *Rng, h int) Sx { return L(A("w"), L(A("hd"), S("X-K"), S(fmt.Sprint(h)))) },
 }
 
 func c10Gen(r *Rng, tier string, i int) Sx {
